@@ -6,6 +6,9 @@ set -e
 cd "$(dirname "$0")/.."
 export GOFLAGS=-mod=mod GOPROXY=off GOSUMDB=off GOTOOLCHAIN=local
 mkdir -p build
+# never freeze a tree that has a seeded change applied: take the repo lock and insist on a clean tree
+if [ -z "$VERIF_REPO_LOCKED" ]; then exec 9>build/repo.lock; flock -x 9; fi
+if [ -n "$(git -C /repo status --porcelain --untracked-files=no)" ]; then echo "mk_expected: /repo has uncommitted changes" >&2; exit 1; fi
 (cd tools/extract && go1.26.8 build -o ../../build/extract .)
 build/extract /repo | sed -e 's/^namespace Drpc.Generated/namespace Drpc.Expected/' \
   -e 's/^end Drpc.Generated/end Drpc.Expected/' \
